@@ -89,6 +89,10 @@ def history_group(rng, orderings, nsteps):
 def run(res):
     rng = rng_for('C16')
     quick = res.tier == 'quick'
+    # descendents()/ancestors()/BDDNode.nodes() against the unique-table model (hand-built and library-built
+    # diagrams); first, while the process holds no other diagram
+    from checks import bdd_api
+    store_api = bdd_api.run_store(res, rng_for('C16/store'), quick)
     B.live_nonterminals()
     hs = []
     orders = list(itertools.permutations(B.VARS))
@@ -147,6 +151,7 @@ def run(res):
         keep.clear()
         _gc.collect()
     st = B.run_histories(res, hs, 'C16')
+    res.coverage['store_api'] = store_api
     problems = proof_coverage(res, THEOREMS, MODULES)
     for p in problems:
         res.violation('proof obligation no longer checks: ' + p, {'theorem_or_module': p}, no_input=True)
